@@ -5,7 +5,6 @@ mod cmd_check_gen;
 mod consts;
 mod pipe;
 mod cmd_genfun;
-mod consts;
 mod gen_fun;
 mod gen_fun_ast;
 mod gen_fun_eval;
